@@ -128,7 +128,7 @@ func c12pkg() *tcpsim.C12Pkg {
 var sims = map[string]sim.SimFunc{
 	"c12t": func(c *sim.Ctx) { tcpsim.RunC12(c, c12pkg()) },
 	"c10": func(c *sim.Ctx) {
-		tcpsim.Run(c, tcpsim.RunCfg{Strong: true, Gen: tcpsim.GenCfg{MaxConns: 3, AllowNoEnd: true, AllowRST: true}}, mk)
+		tcpsim.Run(c, tcpsim.RunCfg{Strong: true, Gen: tcpsim.GenCfg{MaxConns: 3, AllowNoEnd: true, AllowRST: true, SynData: true}}, mk)
 	},
 	"c11t": func(c *sim.Ctx) {
 		tcpsim.Run(c, tcpsim.RunCfg{Lifecycle: true, Gen: tcpsim.GenCfg{MaxConns: 8, AllowNoEnd: true, AllowRST: true, CloseFlush: true, Reopen: true, BackJumps: true, Short: true}}, mk)
